@@ -20,9 +20,9 @@ CLAIMED = {
                 "byte orders, any value, any writer position in the window): padding_for_n_bytes, SerializerCommon::add_padding/write, the nine "
                 "fixed-size encoders through the real serde::Serializer methods, UNIX_FD index/count, serialize_seq header (length slot, "
                 "first-element padding even when empty, depth, signature switch) and SeqSerializer::end_seq (back-patched length excludes the first "
-                "padding; only the slot is written) -- every unit with a byte-exact frame obligation. String encoders are bounded (ASCII, L<=4 quick) "
-                "and reported separately, never as discharged proofs. NOT covered: struct/dict-entry/variant mechanisms, Serialize impls of "
-                "Value/Array/Dict/Structure, FdList::Fds (dup(2)); nesting of arbitrary values rests on the per-mechanism contracts plus a paper lemma.",
+                "padding; only the slot is written) -- every unit with a byte-exact frame obligation; StructSerializer::{variant,structure,end_struct} and serialize_struct_element (nested serializer gets field k's signature and the parent's counter, position and depth); the public serialized_size entry point on fixed-size values (size = padding + width = what the encoder units show is written); and, by Verus on the extracted source, padding_for_n_bytes over mathematical integers and alignment_dbus == the specification's table for EVERY signature value. String encoders are bounded (ASCII, L<=4 quick) "
+                "and reported separately, never as discharged proofs. NOT covered: dict-entry key/value swap, enum_variant, Serialize impls of "
+                "Value/Array/Dict/Structure, FdList::Fds (dup(2)), serialized_size of containers; nesting of arbitrary values rests on the per-mechanism contracts plus a paper lemma.",
         "note": COMMON_TRUST + "Writer is a Cursor over a 16..32-byte window that is large enough for everything the unit writes; the fd count is assumed < u32::MAX. "
                 "Termination not verified. Bounded units (strings) are counted in bounded_obligations only.",
         "design_ref": "DESIGN.md §4 C01, §9",
@@ -116,10 +116,12 @@ CLAIMED = {
                 "PrimaryHeader::read) return an error for the empty buffer and never hand it to the decoder (complete for that length; found and fixed "
                 "a panic); (2) FieldPos::build/read, the cached header-field positions that are re-validated with expect(): a field that borrows from "
                 "the message yields exactly its byte range, a foreign string never yields an out-of-range position, and reading a built position back "
-                "on the same buffer cannot hit the slice / UTF-8 expect (bounded: buffers <= 8 bytes); (3) padding_for_8_bytes (Verus, unbounded). "
+                "on the same buffer cannot hit the slice / UTF-8 expect (bounded: buffers <= 8 bytes); (3) padding_for_8_bytes (Verus, unbounded); (4) Message::body() under the invariant body_offset <= len established by "
+                "from_raw_parts: never panics whatever body length the peer declared (buffers <= 16). "
                 "NOT decided: header/field/body decoding of hostile bytes (serde-derived code through Data/Value: out of CBMC's reach; its leaf decoders "
                 "are C03/C04's bounded contracts) and the body-offset invariant of Message (a second panic -- body() on a message that ends before its "
-                "alignment padding -- was found with a native probe and fixed, but no unit can decide it).",
+                "alignment padding -- was found with a native probe and fixed, and a third -- invalid names in header fields were accepted and later hit FieldPos::read's expect -- "
+                "was reported by a seeding sub-agent and fixed; no unit can decide FieldsVisitor::visit_seq or from_raw_parts itself).",
         "note": COMMON_TRUST + "PrimaryHeader::read_from_data is replaced by a failing stub in the empty-buffer units (they show it is not reached). "
                 "The T::try_from expect in FieldPos::read relies on validators being pure functions (same string validated at build time): argued, not checked.",
         "design_ref": "DESIGN.md §4 C12, §9",
@@ -152,10 +154,25 @@ CLAIMED = {
                 "harness-local FNV variant: the law is stated over the sequence of write calls, so it holds for every Hasher.",
         "design_ref": "DESIGN.md §4 C08, §10",
     },
+    "C05": {
+        "category": "other",
+        "technique": TECH_BOTH + "; reduced to the framing-offset machinery",
+        "text": "Reduced to the framing-offset mechanisms the anchors name (needs --features gvariant). FramingOffsetSize::for_bare_container returns "
+                "the MINIMAL width (1/2/4/8) whose maximum can address the container including the offsets themselves -- for ALL lengths, twice: "
+                "Verus on the extracted source (loop invariant + decreases, mathematical integers) and Kani bit-precisely on usize (the 255 / 65535 "
+                "thresholds crossed by the offsets themselves are cover points); write_offset writes exactly `width` little-endian bytes and nothing "
+                "else (complete); read_last_offset_from_buffer returns the value of the last `width` bytes (buffers <= 12); FramingOffsets::write_all "
+                "writes the offsets in insertion order at the minimal width chosen from the final container size, and nothing when there are none "
+                "(<= 3 offsets). NOT decided: the alignment_gvariant / is_fixed_sized tables (units did not finish under CBMC even on concrete "
+                "signatures, Verus rejects the iterator adapters), the GVariant serializer's per-type and container layout (arrays, structs, dicts, "
+                "maybe, variants), and BOOLEAN width (zvariant routes it through the D-Bus path: suspect, not under contract). A change there is not detected.",
+        "note": COMMON_TRUST + "Verus unit: usize = 64 bit; lift rewrites listed in evidence. Offsets passed to write_offset are assumed representable in the chosen width "
+                "(they are <= the container size, which fits by for_bare_container).",
+        "design_ref": "DESIGN.md §4 C05, §10",
+    },
 }
 
 # designed (DESIGN.md §4) but the units are not built: listed under not_applicable with that reason
 NOT_BUILT = {
-    "C05": "designed in DESIGN.md §4 (GVariant mechanisms under --features gvariant) but the units are not built; not claimed",
     "C06": "parser acceptance is out of reach (recursive winnow grammar does not finish at N<=4 under CBMC, Verus cannot process it); the formatting/length/equality units designed in DESIGN.md §4 are not built; not claimed",
 }
